@@ -64,13 +64,13 @@ def classify(o):
 
 
 SHAPES = {
-    "unit_struct": "struct S;", "tuple0": "struct S();", "tuple1": "struct S({F}i32);", "tuple1_unit": "struct S({F}());", "tuple2": "struct S({F}i32, String);",
-    "named0": "struct S {{}}", "named1": "struct S {{ {F}a: i32 }}", "named2": "struct S {{ {F}a: i32, b: String }}",
+    "unit_struct": "struct S;", "tuple0": "struct S();", "tuple1": "struct S({F}i32);", "tuple1_unit": "struct S({F}());", "tuple2": "struct S({F}i32, {G}String);",
+    "named0": "struct S {{}}", "named1": "struct S {{ {F}a: i32 }}", "named2": "struct S {{ {F}a: i32, {G}b: String }}",
     "enum_empty": "enum S {{}}", "enum_unit": "enum S {{ {V}A, B }}", "enum_tuple": "enum S {{ {V}A({F}i32), B(String) }}",
-    "enum_named": "enum S {{ {V}A {{ {F}x: i32 }}, B {{ y: u8 }} }}", "enum_mixed": "enum S {{ {V}A, B({F}i32, u8), C {{ z: String }} }}",
-    "union": "union S {{ {F}a: i32, b: u32 }}", "generic_struct": "struct S<'a, T: Clone, const N: usize>({F}&'a [T; N]) where T: Default;",
+    "enum_named": "enum S {{ {V}A {{ {F}x: i32 }}, B {{ y: u8 }} }}", "enum_mixed": "enum S {{ {V}A, B({F}i32, {G}u8), C {{ z: String }} }}",
+    "union": "union S {{ {F}a: i32, {G}b: u32 }}", "generic_struct": "struct S<'a, T: Clone, const N: usize>({F}&'a [T; N]) where T: Default;",
     "generic_enum": "enum S<T, U = i32> {{ {V}A({F}T), B(U) }}", "raw_names": "enum r#enum {{ {V}r#fn({F}i32), r#in {{ r#type: u8 }} }}",
-    "raw_unit_enum": "enum r#enum {{ {V}r#fn, r#in }}", "raw_struct": "struct r#struct {{ {F}r#type: i32, r#fn: u8 }}",
+    "raw_unit_enum": "enum r#enum {{ {V}r#fn, r#in }}", "raw_struct": "struct r#struct {{ {F}r#type: i32, {G}r#fn: u8 }}",
     "raw_newtype": "struct r#fn({F}i32);",
 }
 
@@ -95,15 +95,18 @@ def body_text(body, attr):
 
 
 def render(req, attr):
-    f = v = i = ""
+    f = v = i = g = ""
     t = body_text(req["body"], attr) + " "
+    if req["pos"] == "field_pair":
+        f = t
+        g = body_text(req["body2"], attr) + " "
     if req["pos"] == "item":
         i = t
     elif req["pos"] == "variant":
         v = t
     elif req["pos"] == "field":
         f = t
-    return i + SHAPES[req["shape"]].format(F=f, V=v)
+    return i + SHAPES[req["shape"]].format(F=f, V=v, G=g)
 
 
 def run(chk, tier, seed, replay):
